@@ -300,6 +300,9 @@ func (c *Ctx) render(pc []string, goal string, cover bool, cands []string, lens 
 		pc = append(append([]string(nil), pc...), t.list[1].String())
 		goal = t.list[2].String()
 	}
+	if !cover && envInt("GOVC_MP", 1) == 1 {
+		pc = modusPonens(pc)
+	}
 	b.WriteString(prelude)
 	b.WriteString(c.sorts.render())
 	for _, d := range c.decls {
@@ -407,11 +410,50 @@ func (c *Ctx) render(pc []string, goal string, cover bool, cands []string, lens 
 			b.WriteString("(assert " + e + ")\n")
 		}
 	}
-	if len(in.cands) > 0 || len(in.refCands) > 0 {
+	// ground applications of abstract spec functions (triggers for the hypotheses that mention them)
+	if strings.Contains(g, "abs!") || strings.Contains(strings.Join(pc, " "), "abs!") {
+		in.curPrio = 0
+		if t, err := parseSx(g); err == nil {
+			in.noteAbsTerms(t)
+		}
+		in.curPrio = 1
+		for k := len(pc) - 1; k >= 0; k-- {
+			if p := pc[k]; strings.Contains(p, "abs!") {
+				if t, err := parseSx(p); err == nil {
+					in.noteAbsTerms(t)
+				}
+			}
+		}
+		for _, t := range parsed {
+			in.noteAbsTerms(t)
+		}
+		in.curPrio = 2
+	}
+	if len(in.cands) > 0 || len(in.refCands) > 0 || len(in.absArgs) > 0 {
 		// most recent hypotheses first: when the instance budget runs out it is the oldest facts
 		// (usually the least relevant for the goal) that go without instances
 		for k := len(parsed) - 1; k >= 0; k-- {
 			in.collect(parsed[k], nil)
+		}
+		if len(in.absArgs) > 0 {
+			// second round over the abstract-function terms the first round's instances introduced
+			for r := 0; r < 2; r++ {
+				n0 := len(in.out)
+				for _, i := range in.trigOut {
+					if strings.Contains(i, "abs!") {
+						if t, err := parseSx(i); err == nil {
+							in.noteAbsTerms(t)
+						}
+					}
+				}
+				in.limit += 400
+				for k := len(parsed) - 1; k >= 0; k-- {
+					in.collect(parsed[k], nil)
+				}
+				if len(in.out) == n0 {
+					break
+				}
+			}
 		}
 		// second round: index terms that the first round's instances introduced (e.g. mid+j from a
 		// callee's postcondition instantiated at j) become candidates for the one-binder hypotheses
